@@ -587,11 +587,16 @@ def exemption_in_path(path):
 def check_faults(ck, eng, requests):
     from ..ebb3 import EBB3Hooks
     EBB3Hooks.os_faults = True
+    # a line that is not ASCII text (line noise, a device that is not an EBB after all) is a
+    # mismatched reply like any other: decoding it raises UnicodeDecodeError, which must end as a
+    # recorded error and the failure value too, not as an exception out of a request method
+    EBB3Hooks.decode_faults = True
     eng._sum.clear()
     try:
         return _check_faults(ck, eng, requests)
     finally:
         EBB3Hooks.os_faults = False
+        EBB3Hooks.decode_faults = False
         eng._sum.clear()
 
 
@@ -739,10 +744,18 @@ def handler_sets(ck, prog, eng):
         sets[name] = {c for c in caught if not any(
             d != c and exc_is_subclass(c, d) for d in caught)}
     ck.saw('exception_classes_contained', {k: sorted(v) for k, v in sets.items()})
+    # compared on the fault classes of the contract (what the fault rules inject, plus the
+    # RuntimeError the primitives list): `except ValueError` and `except UnicodeDecodeError`
+    # contain the same decode fault, `except Exception` contains all of them
+    from ..ebb3 import SERIAL_EXC
+    from ..interp import exc_is_subclass as _sub
+    faults = (SERIAL_EXC, 'OSError', 'UnicodeDecodeError', 'RuntimeError')
+    cover = {k: {f for f in faults if any(_sub(f, c) for c in v)} for k, v in sets.items()}
+    ref_cover = cover['command']
     ref = sets['command']
     for name, got in sets.items():
         fn = eng.method(name)
-        ck.ob('C05-D5-sibling-handlers', fn.qualname, got == ref,
+        ck.ob('C05-D5-sibling-handlers', fn.qualname, cover[name] == ref_cover,
               '%s contains %s around its port I/O while command contains %s: the primitives '
               'disagree on which I/O exceptions are contained (a fault of the missing class '
               'escapes from this one only)' % (fn.qualname, sorted(got), sorted(ref)), fn.loc(),
